@@ -206,7 +206,7 @@ pub fn check_chunker(case: &StreamCase) -> CaseResult {
         let block = case.delivery.block_size().unwrap_or(hcobs::DEFAULT_BLOCK_SIZE);
         let lent = [range_of(&stream)];
         let mut arena = ByteArena::new();
-        stream_in::prepare_arena(&mut arena, case.delivery.arena_prep);
+        stream_in::prepare_arena_for(&mut arena, &case.delivery);
         let mut reader = CyclicReader::new(&stream, &case.delivery);
         let mut chunker = StreamChunker::default();
         let mut held: Vec<(AnchoredSlice, usize, usize)> = vec![]; // slice, start, end in the stream
